@@ -158,6 +158,7 @@ fn c03_init(ni: usize) -> u8 {
             kani::assert(ni < 2 || hs[0] != hs[1], "VERIF:C03:duplicate initial sets fail construction");
             kani::assert(model::storage_get(&gw(), 0, &k(&DataKey::Epoch)) == Some(model::val_of(&(ni as u64))), "VERIF:C03:epoch after construction is the number of initial sets");
             kani::assert(model::storage_get(&gw(), 0, &k(&DataKey::LastRotationTimestamp)) == Some(model::val_of(&t)), "VERIF:C09:deployment counts as a rotation for the clock");
+            kani::assert(model::storage_get(&gw(), 0, &k(&DataKey::PreviousSignerRetention)) == Some(model::val_of(&r)), "VERIF:C08:the retention window is exactly the configured one, for any number of initial sets");
             kani::assert(model::storage_get(&gw(), 0, &k(&DataKey::MinimumRotationDelay)) == Some(model::val_of(&d))
                 && model::storage_get(&gw(), 0, &k(&DataKey::PreviousSignerRetention)) == Some(model::val_of(&r))
                 && model::storage_get(&gw(), 0, &k(&DataKey::DomainSeparator)) == Some(model::val_of(&domain)), "VERIF:C03:configuration is stored as given");
@@ -170,7 +171,7 @@ fn c03_init(ni: usize) -> u8 {
         }
     }
 }
-// HARNESS props=C03,C09 tier=quick profile=gw_init shape="constructor with 1 initial set (N=1)"
+// HARNESS props=C03,C09,C08 tier=quick profile=gw_init shape="constructor with 1 initial set (N=1)"
 #[kani::proof]
 #[kani::unwind(114)]
 fn c03_init_1() {
@@ -178,7 +179,7 @@ fn c03_init_1() {
     kani::cover!(o == 1, "VERIF:reach:constructed");
     kani::cover!(o == 0, "VERIF:reach:construction failed");
 }
-// HARNESS props=C03 tier=quick profile=gw_init shape="constructor with 2 initial sets (N=1 each), possibly equal"
+// HARNESS props=C03,C08 tier=quick profile=gw_init shape="constructor with 2 initial sets (N=1 each), possibly equal"
 #[kani::proof]
 #[kani::unwind(114)]
 fn c03_init_2() {
@@ -192,4 +193,13 @@ fn c03_init_2() {
 fn c03_init_0() {
     let o = c03_init(0);
     kani::cover!(o == 0, "VERIF:reach:construction failed");
+}
+
+// HARNESS props=C03,C09 tier=thorough profile=gw_rot3 shape="candidate N=3"
+#[kani::proof]
+#[kani::unwind(220)]
+fn c03_rotate_n3() {
+    let o = c03_rotate(3);
+    kani::cover!(o == 1, "VERIF:reach:set installed");
+    kani::cover!(o == 0, "VERIF:reach:set refused");
 }
